@@ -45,6 +45,8 @@ func (r *c20Reply) coq(hn func(string) string) string {
 	switch r.Kind {
 	case "RDischarge", "RError":
 		return r.Kind
+	case "REmpty":
+		return "RError" // an answer with neither a discharge nor an error is a failed flow
 	case "RPoll", "RUser":
 		return coqw.App("RPoll", coqw.Str(hn(r.Host)), coqw.Nat(r.N), r.Next.coq(hn))
 	case "RRedirect":
@@ -172,6 +174,8 @@ func (w *c20World) serve(r *http.Request, id string, fl *c20Flow) *http.Response
 	switch fl.rest.Kind {
 	case "RError":
 		return jsonResp(r, 200, map[string]string{"error": "denied"})
+	case "REmpty":
+		return jsonResp(r, 200, map[string]string{})
 	case "RDischarge":
 		_, dm, err := macaroon.DischargeTicket(w.keys[fl.loc], fl.loc, fl.ticket)
 		if err != nil {
@@ -267,7 +271,7 @@ func genC20(c *ctx) {
 				return &c20Reply{Kind: "RDischarge"}
 			case k < 5:
 				// after the "not ready" answers the poll URL answers with the discharge, an error or a redirect
-				next := &c20Reply{Kind: "RDischarge"}
+				next := &c20Reply{Kind: rng.Pick(r, []string{"RDischarge", "RDischarge", "RDischarge", "REmpty", "RError"})}
 				if r.P(1, 3) {
 					next = &c20Reply{Kind: "RRedirect", Host: rng.Pick(r, c20Authorities), Next: &c20Reply{Kind: "RDischarge"}}
 				}
@@ -275,7 +279,7 @@ func genC20(c *ctx) {
 			case k < 7:
 				return &c20Reply{Kind: "RRedirect", Host: rng.Pick(r, c20Authorities), Next: mkReply(depth + 1)}
 			}
-			return &c20Reply{Kind: "RError"}
+			return &c20Reply{Kind: rng.Pick(r, []string{"RError", "RError", "REmpty"})}
 		}
 		// the caller's header: 1-2 permission tokens, each with a 3P caveat for some of the locations
 		nperm := 1 + r.Intn(2)
